@@ -62,6 +62,14 @@ class MessageManager(interfaces.TokenInterface, interfaces.MessageManager):
             Tuple[EndpointAddress, bytes], Tuple[int, asyncio.TimerHandle]
         ] = {}
 
+        #: NON messages that were sent with a messageerror_monitor (responses
+        #: and notifications), by (remote, message ID), so that a RST answering
+        #: one of them reaches the monitor: (messageerror_monitor, expiry
+        #: handle). Entries live for NON_LIFETIME.
+        self._recent_nons: Dict[
+            Tuple[EndpointAddress, int], Tuple[Callable[[], None], asyncio.Handle]
+        ] = {}
+
         self.log = token_manager.log
         self.loop = token_manager.loop
 
@@ -87,6 +95,10 @@ class MessageManager(interfaces.TokenInterface, interfaces.MessageManager):
             # the empty ACKs would hit a transport that is already closed.
             handle.cancel()
         self._piggyback_opportunities = {}
+
+        for _monitor, handle in self._recent_nons.values():
+            handle.cancel()
+        self._recent_nons = {}
 
         await self.message_interface.shutdown()
 
@@ -123,6 +135,13 @@ class MessageManager(interfaces.TokenInterface, interfaces.MessageManager):
             self._remove_exchange(message)
         elif message.mtype is RST and message.code is EMPTY:
             self._remove_exchange(message)
+            # A Reset can also answer a non-confirmable message, for which
+            # there is no exchange
+            entry = self._recent_nons.pop((message.remote, message.mid), None)
+            if entry is not None:
+                messageerror_monitor, handle = entry
+                handle.cancel()
+                messageerror_monitor()
 
         if message.code is EMPTY and message.mtype is CON:
             self._process_ping(message)
@@ -549,6 +568,19 @@ class MessageManager(interfaces.TokenInterface, interfaces.MessageManager):
                 "messageerror_monitor needs to be set for CONs"
             )
             self._add_exchange(message, messageerror_monitor)
+        elif (
+            message.mtype is NON
+            and messageerror_monitor is not None
+            and message.code.is_response()
+        ):
+            key = (message.remote, message.mid)
+            handle = self.loop.call_later(
+                # NON_LIFETIME of RFC 7252
+                message.transport_tuning.MAX_TRANSMIT_SPAN
+                + message.transport_tuning.MAX_LATENCY,
+                functools.partial(self._recent_nons.pop, key, None),
+            )
+            self._recent_nons[key] = (messageerror_monitor, handle)
 
         self._store_response_for_duplicates(message)
 
